@@ -270,7 +270,7 @@ class C04(LoadPlugin):
     pid = "C04"
     prop = 4
     clash_rate = 0.55
-    counts = {"quick": 2500, "thorough": 80000}
+    counts = {"quick": 2500, "thorough": 250000}
     rule = ("case = (loader in {Converter(records), Converter(Record objects that were used by another converter and then extended through "
             "add_prefix(merge=True)), extended prefix map, prefix map, priority map, reverse map, JSON-LD, upgrade_prefix_map}, input, "
             "delimiter, probes); 55 % of the inputs carry an injected clash (canonical/canonical, canonical/synonym, synonym/synonym on the CURIE "
@@ -287,7 +287,7 @@ class C13(LoadPlugin):
     prop = 13
     clash_rate = 0.1
     files = True
-    counts = {"quick": 2000, "thorough": 60000}
+    counts = {"quick": 2000, "thorough": 200000}
     rule = ("same case shape as C04 with mostly valid inputs (10 % clashes): prefix maps, priority maps, reverse maps with equal-length ties, "
             "extended prefix maps, JSON-LD contexts with string terms, @prefix dictionaries, other terms, @-keywords and the empty key, non-bijective "
             "prefix maps for upgrade_prefix_map; for the JSON-capable loaders the same data is also written to a file and loaded through a str path "
